@@ -165,9 +165,13 @@ SkipTrivial(PT, T, s, gs, cs, gi, ci, env) ==
         ELSE Fail(env)
     ELSE LET m == MatchNode(PT, T, s, gs[gi], cs[ci], env) IN
          CASE m.r = "both"     -> LoopTail(PT, T, s, gs, cs, gi, ci, m.env)
+           \* after a skipped goal, an ellipsis goes back to the top of the loop (ControlFlow::Continue) when a
+           \* candidate is still there; it is never matched as a single node
            [] m.r = "skipgoal" -> IF gi + 1 > Len(gs) THEN LoopTail(PT, T, s, gs, cs, gi + 1, ci, m.env)
+                                  ELSE IF IsEllipsis(PT[gs[gi + 1]]) THEN Loop(PT, T, s, gs, cs, gi + 1, ci, m.env)
                                   ELSE SkipTrivial(PT, T, s, gs, cs, gi + 1, ci, m.env)
            [] m.r = "skipboth" -> IF gi + 1 > Len(gs) THEN LoopTail(PT, T, s, gs, cs, gi + 1, ci + 1, m.env)
+                                  ELSE IF ci + 1 <= Len(cs) /\ IsEllipsis(PT[gs[gi + 1]]) THEN Loop(PT, T, s, gs, cs, gi + 1, ci + 1, m.env)
                                   ELSE SkipTrivial(PT, T, s, gs, cs, gi + 1, ci + 1, m.env)
            [] m.r = "skipcand" -> SkipTrivial(PT, T, s, gs, cs, gi, ci + 1, m.env)
            [] OTHER            -> Fail(m.env)
